@@ -43,6 +43,9 @@ checks = {
  "C11": ("E1", "exhaustive enumeration of all MonadIO compositions up to a depth (one shared expression DAG) against a reference interpreter, plus " + E1,
    "Composition part: all expressions over {Just, New(e_i), m.FlatMap(f_j)} up to depth 4 (thorough 6) are built as one DAG with shared sub-expressions (3 effects whose value differs per evaluation, 3 continuations, one returning a nested composition); nothing may run while building; every expression is then evaluated by Eval (twice), Subscribe with OnNext and Subscribe without OnNext and compared (effect log, value, OnNext count) with a reference interpreter; the three monad laws are checked as equality of (effect log, value). Handler part: all schedules (pre-emption bound 2/3) of every nil/non-nil ObserveOn x SubscribeOn combination with 1-3 subscriptions of the same MonadIO and buffered handler mailboxes: effect on h1's goroutine, OnNext on h2's, once each, each OnNext receiving the value of its own evaluation.",
    "Bounded expression depth / subscriptions / pre-emptions; SC interleavings; vsched runtime model.", "DESIGN.md §4, §2, §5 C11"),
+ "C20": ("E1", "exhaustive enumeration of function lists, regroupings, adapter arities, Trampoline step functions, ordered pattern subsets x probe values against reference evaluators, plus " + E1,
+   "Sequential part: all function lists of length 1-4 (thorough 5) over 5 non-commuting tagged functions and all lists of length up to 6 over 2, each handed as ONE shared slice to Compose, Pipe, their regroupings at every split point and the interface{} twins, applied twice, with the caller's slice re-inspected; every Curry*/MakeVariadic* arity with distinguishable arguments; Trampoline for all (done at k, error at k) step functions; sequential CurryDef; NewCompData over all argument tuples up to length 3 of a 6-value alphabet; every ordered subset of {Kind(Int), Kind(String), SumType, Equal, Regex, Otherwise} (1957 lists) x 20-24 probe values (numbers, strings, nil, typed nil pointers, structs, pointers to structs and to nil pointers, slices, maps, CompData of matching / other type) against a first-match reference evaluator (panic iff nothing accepts). Concurrent part: all schedules (pre-emption bound 2/3) of 2-4 goroutines calling CurryDef.Call with a function that yields inside and marks done at 1-3 arguments.",
+   "Bounded list lengths / alphabets / pre-emptions; SC interleavings; vsched runtime model.", "DESIGN.md §4, §2, §5 C20"),
 }
 
 not_yet = "check not built yet in this round (see DESIGN.md §9 build order); no claim made"
